@@ -245,5 +245,5 @@ def run(facts):
                     res.ok(key, loc, "view(self)")
             except ValueError as ex:
                 res.bad(key, loc, str(ex))
-    res.floor("cmp_impls", n, 56)
+    res.floor("cmp_impls", n, 50)
     return res
